@@ -488,7 +488,7 @@ class Phonopy:
             shape=(3, 3), dtype='intc', order='C'.
 
         """
-        return self._supercell_matrix
+        return self._supercell_matrix.copy()
 
     def get_supercell_matrix(self):
         """Return transformation matrix to supercell cell from unit cell."""
@@ -509,7 +509,9 @@ class Phonopy:
             shape=(3, 3), dtype='double', order='C'.
 
         """
-        return self._primitive_matrix
+        if self._primitive_matrix is None:
+            return None
+        return self._primitive_matrix.copy()
 
     def get_primitive_matrix(self):
         """Return transformation matrix to primitive cell from unit cell."""
